@@ -57,6 +57,25 @@ func (c *VerifCtx) verifyFunction(ct *Contract) (res *FuncResult) {
 		args = append(args, v)
 		ex.addProbes("arg."+p.Name(), v, p.Type(), st0, 3)
 	}
+	if ct.WithInit {
+		// execute the package's variable initialisers (obligations suppressed:
+		// they are not part of this function) so that tables such as the
+		// handshake patterns have their declared values
+		if initFn := fn.Pkg.Func("init"); initFn != nil && len(initFn.Blocks) > 0 {
+			if g, ok := fn.Pkg.Members["init$guard"].(*ssa.Global); ok {
+				st0.cells[ex.globalCell(g).id] = BoolV{False}
+			}
+			ex.dry++
+			ex.inInit = true
+			r := ex.execFunction(initFn, nil, nil, st0, TrueT, false)
+			ex.inInit = false
+			ex.dry--
+			if r.pc != False && r.st != nil {
+				st0 = r.st
+				ex.note("package initialisers executed symbolically to obtain the values of package-level tables")
+			}
+		}
+	}
 	env := &SpecEnv{vars: map[types.Object]Value{}, st: st0, old: st0}
 	bindStubParams(ct, info, env, args)
 	// package axioms (facts about package-level state established by init)
@@ -89,6 +108,20 @@ func (c *VerifCtx) verifyFunction(ct *Contract) (res *FuncResult) {
 						}
 					}
 					continue
+				}
+			}
+			// requires same(x.f, v): the location holds exactly v on entry (stored,
+			// so that tables reachable from it stay concrete)
+			if call, ok := conj.(*ast.CallExpr); ok {
+				if id := calleeIdent(call.Fun); id != nil && id.Name == "same" && len(call.Args) == 2 {
+					if _, isSel := call.Args[0].(*ast.SelectorExpr); isSel {
+						p := ex.specAddr(call.Args[0], info, env, TrueT)
+						v := ex.evalSpec(call.Args[1], info, env, TrueT)
+						ex.dry++
+						ex.store(st0, p, v, TrueT, token.NoPos)
+						ex.dry--
+						continue
+					}
 				}
 			}
 			g := ex.assumeSpec(conj, info, env, TrueT)
